@@ -382,8 +382,11 @@ var anchorPkgs = map[string]bool{}
 // anchorPkg reports whether the rules name a function of this module package.
 func (p *Program) anchorPkg(short string) bool {
 	p.IsAnchor("")
-	return anchorPkgs[short]
+	return anchorPkgs[short] || expandEverywhere
 }
+
+// expandEverywhere lifts the package restriction of the inliner (its own tests).
+var expandEverywhere = false
 
 // IsAnchor reports whether the rules name a function by this (canonical) name.
 func (p *Program) IsAnchor(name string) bool {
